@@ -25,21 +25,26 @@ def log(*a):
     print(*a, flush=True)
 
 
-def build(profiles):
+def build(profiles, exe="vdrive"):
     env = dict(os.environ)
     env["CARGO_NET_OFFLINE"] = "true"
     for prof in profiles:
         t0 = time.time()
-        p = subprocess.run(["cargo", "build", "--offline", "--profile", prof, "--bin", "vdrive"],
-                           cwd=HARNESS, env=env, stdout=subprocess.PIPE, stderr=subprocess.STDOUT, text=True)
+        cmd = ["cargo", "build", "--offline", "--profile", prof, "--bin", exe]
+        if exe == "voptim":
+            cmd += ["--features", "optim"]
+        p = subprocess.run(cmd, cwd=HARNESS, env=env, stdout=subprocess.PIPE, stderr=subprocess.STDOUT, text=True)
         if p.returncode != 0:
             log(p.stdout[-4000:])
             raise tlc.ToolError("harness build failed (profile %s)" % prof)
-        log("[build] profile %s: %.1fs" % (prof, time.time() - t0))
+        log("[build] %s profile %s: %.1fs" % (exe, prof, time.time() - t0))
+
+
+EXE = ["vdrive"]
 
 
 def vdrive(profile, args, timeout=3600):
-    exe = os.path.join(HARNESS, "target", profile, "vdrive")
+    exe = os.path.join(HARNESS, "target", profile, EXE[0])
     p = subprocess.run([exe] + args, stdout=subprocess.PIPE, stderr=subprocess.PIPE, text=True, timeout=timeout)
     if p.returncode != 0:
         log(p.stdout[-2000:], p.stderr[-2000:])
@@ -188,7 +193,8 @@ def run_property(pid, tier, seed, replay=None):
     shutil.rmtree(outdir, ignore_errors=True)
     os.makedirs(outdir)
     profiles = spec.get("profiles_thorough" if tier == "thorough" else "profiles", ["checked"])
-    build(profiles)
+    EXE[0] = spec.get("exe", "vdrive")
+    build(profiles, EXE[0])
     tool_errors = []
     mc_res = []
     if not replay:
@@ -333,6 +339,7 @@ def main(argv):
     try:
         if cmd == "setup":
             build(["checked", "fast"])
+            build(["checked"], "voptim")
             return 0
         if cmd == "manifest":
             from . import manifest
